@@ -311,7 +311,7 @@ class C03(Base):
                   "of distinct rows of the selection issued in the same state.")
     clauses = {"lost", "duplicate-row", "foreign-row", "wrong-value", "count-vs-selection", "replay-lost",
                "replay-duplicate", "replay-foreign", "frames", "read-error", "panic", "id-change"}
-    budgets = {"quick": {"histories": 160}, "thorough": {"histories": 6000}}
+    budgets = {"quick": {"histories": 160}, "thorough": {"histories": 40000}}
 
     @staticmethod
     def gen(seed, tier):
@@ -387,7 +387,7 @@ class C04(Base):
                   "such a restart. The returned sequence of events must equal the model's apply order (order compared, not only "
                   "membership).")
     clauses = {"replay-order", "replay-lost", "replay-duplicate", "replay-foreign", "wrong-value", "frames", "read-error", "panic"}
-    budgets = {"quick": {"histories": 120}, "thorough": {"histories": 5000}}
+    budgets = {"quick": {"histories": 120}, "thorough": {"histories": 30000}}
 
     @staticmethod
     def gen(seed, tier):
@@ -578,7 +578,7 @@ class C12(Base):
                   "unscoped query must return the union over all shards (also when some shards hold only passive or no data).")
     clauses = {"shard-moved", "lost", "duplicate-row", "foreign-row", "query-missing", "query-extra", "wrong-value", "frames",
                "read-error", "panic", "wal-shard", "order-slice", "order-extra"}
-    budgets = {"quick": {"histories": 100}, "thorough": {"histories": 4000}}
+    budgets = {"quick": {"histories": 100}, "thorough": {"histories": 20000}}
 
     @staticmethod
     def gen(seed, tier):
@@ -636,7 +636,7 @@ class C18(Base):
                   "compaction in between. Over the whole store: all ids distinct, per shard ids increase in apply order, ids after "
                   "recovery equal ids before, and the number of rows returned equals the number of events applied.")
     clauses = {"id-reuse", "id-change", "id-order", "lost", "duplicate-row", "foreign-row", "frames", "read-error", "panic"}
-    budgets = {"quick": {"histories": 60, "bursts": 1}, "thorough": {"histories": 1500, "bursts": 12}}
+    budgets = {"quick": {"histories": 60, "bursts": 1}, "thorough": {"histories": 8000, "bursts": 40}}
 
     @staticmethod
     def gen(seed, tier):
@@ -895,7 +895,7 @@ class C02(Base):
                   "checkpoint. Single-atom probes attribute a failure to one (field type, operator) pair; compound predicates are "
                   "drawn from the atoms whose probes hold.")
     clauses = {"query-missing", "query-extra", "foreign-row", "duplicate-row", "layout-variance", "frames", "read-error", "panic"}
-    budgets = {"quick": {"histories": 150}, "thorough": {"histories": 5000}}
+    budgets = {"quick": {"histories": 150}, "thorough": {"histories": 15000}}
     CLEAN = None   # atom kinds usable in compound predicates (None = all, used for classification runs)
 
     @staticmethod
@@ -967,7 +967,7 @@ class C07(Base):
                   "A failure is attributed to the value class of the event that came back wrong.")
     clauses = {"wrong-value", "lost", "duplicate-row", "foreign-row", "layout-variance", "return-columns", "frames", "read-error", "panic",
                "rejected-valid"}
-    budgets = {"quick": {"histories": 100}, "thorough": {"histories": 3000}}
+    budgets = {"quick": {"histories": 100}, "thorough": {"histories": 20000}}
 
     @staticmethod
     def gen(seed, tier):
@@ -1049,7 +1049,7 @@ class C09(Base):
                   "(and over the model), each selected event in exactly one group, LIMIT (and OFFSET) only deciding the number of groups; tables must "
                   "be identical at every layout checkpoint of the same history.")
     clauses = {"agg-vs-selection", "agg-vs-model", "agg-duplicate-group", "layout-variance", "frames", "read-error", "panic"}
-    budgets = {"quick": {"histories": 120}, "thorough": {"histories": 4000}}
+    budgets = {"quick": {"histories": 120}, "thorough": {"histories": 20000}}
 
     @staticmethod
     def gen(seed, tier):
@@ -1134,7 +1134,7 @@ class C10(Base):
                   "LIMIT must be rejected, and answers must be identical at every layout checkpoint.")
     clauses = {"order-unsorted", "order-slice", "order-extra", "limit-count", "query-extra", "duplicate-row", "foreign-row",
                "layout-variance", "offset-without-limit", "frames", "read-error", "panic"}
-    budgets = {"quick": {"histories": 120}, "thorough": {"histories": 4000}}
+    budgets = {"quick": {"histories": 120}, "thorough": {"histories": 20000}}
 
     @staticmethod
     def gen(seed, tier):
@@ -1194,13 +1194,23 @@ class AuthModel:
     def is_admin(self, u):
         return "admin" in self.users[u]["roles"]
 
+    # A per-type permission entry is more specific than a role (documented in the engine's permission cache and
+    # required by "revoking a permission takes effect for the next request"): REVOKE READ,WRITE leaves an all-false
+    # entry that denies the type even to a user whose role would allow it; an entry that exists decides WRITE.
     def can_read(self, u, t):
         p = self.perms.get((u, t))
-        return bool(set(self.users[u]["roles"]) & ROLE_READ) or bool(p and p["read"])
+        if p:
+            if p["read"]:
+                return True
+            if not p["write"]:
+                return False
+        return bool(set(self.users[u]["roles"]) & ROLE_READ)
 
     def can_write(self, u, t):
         p = self.perms.get((u, t))
-        return bool(set(self.users[u]["roles"]) & ROLE_WRITE) or bool(p and p["write"])
+        if p:
+            return p["write"]
+        return bool(set(self.users[u]["roles"]) & ROLE_WRITE)
 
 
 class C13(Base):
@@ -1216,7 +1226,7 @@ class C13(Base):
                   "whether it may execute; a request the model denies must be answered with an error (it must not execute).")
     clauses = {"unauthenticated-executed", "unauthorized-read", "unauthorized-write", "nonadmin-admin-op", "revoked-still-works",
                "expired-token-works", "panic"}
-    budgets = {"quick": {"histories": 80}, "thorough": {"histories": 3000}}
+    budgets = {"quick": {"histories": 80}, "thorough": {"histories": 40000}}
     opts = {}
 
     @staticmethod
@@ -1326,6 +1336,12 @@ class C13(Base):
                     issue(ADMIN, f"REVOKE READ,WRITE ON {t} FROM {u}", {"kind": "authcmd", "need": "admin"}, form="inline")
                     m.perms.pop((u, t), None)
                     continue
+                if x < 0.05 and m.users[u]["roles"] and "admin" not in m.users[u]["roles"]:
+                    # a per-type revoke for a user who has a role: the explicit denial must win, now and after a restart
+                    t = rng.choice(types)
+                    issue(ADMIN, f"REVOKE READ,WRITE ON {t} FROM {u}", {"kind": "authcmd", "need": "admin"}, form="inline")
+                    m.perms[(u, t)] = {"read": False, "write": False}
+                    continue
                 if x < 0.06:
                     # revoke a key, then the user tries again
                     issue(ADMIN, f"REVOKE KEY {u}", {"kind": "authcmd", "need": "admin"}, form="inline")
@@ -1401,6 +1417,23 @@ class C13(Base):
                     authz = m.can_write(u, need[1])
                 issue(u, cmd, {"kind": "authcmd", "need": need if isinstance(need, str) else list(need), "authenticated": allowed,
                                "authorized": authz, "active": m.users[u]["active"], "expiry_s": expiry, "cmdkind": kind}, form=form, bad=bad)
+            role_users = [u for u in names if m.users[u]["roles"] and m.users[u]["active"]]
+            if i % 3 == 0 and role_users:
+                # fixed tail: a per-type denial for a user with a role, persisted across a restart (the auth log must keep
+                # what REVOKE left behind), then that user reads and writes the type through two command kinds
+                u = role_users[0]
+                t = types[0]
+                issue(ADMIN, f"REVOKE READ,WRITE ON {t} FROM {u}", {"kind": "authcmd", "need": "admin"}, form="inline")
+                m.perms[(u, t)] = {"read": False, "write": False}
+                h.end(rng.choice(["shutdown", "kill"]))
+                h.life(end="shutdown", tick_ms=tick)
+                conn_state.clear()
+                k = h.new_k()
+                for cmd, need, kind in [(f"QUERY {t}", ("read", t), "query"), (f"REPLAY {t} FOR c0", ("read", t), "replay"),
+                                        (f'STORE {t} FOR c0 PAYLOAD {{"k":{k},"s":"tail"}}', ("write", t), "store")]:
+                    authz = m.can_read(u, t) if need[0] == "read" else m.can_write(u, t)
+                    issue(u, cmd, {"kind": "authcmd", "need": list(need), "authenticated": True, "authorized": authz, "active": True,
+                                   "expiry_s": expiry, "cmdkind": kind}, form="inline")
             yield h.done()
 
 
@@ -1418,7 +1451,7 @@ class C14(Base):
                   "name must be rejected and leave the old one unchanged.")
     clauses = {"show-missing", "show-extra", "show-duplicate", "show-unstable", "remember-duplicate-accepted", "show-error",
                "frames", "read-error", "panic"}
-    budgets = {"quick": {"histories": 100}, "thorough": {"histories": 3000}}
+    budgets = {"quick": {"histories": 100}, "thorough": {"histories": 20000}}
 
     @staticmethod
     def nontrivial(plan, res):
@@ -1488,7 +1521,7 @@ class C15(Base):
                   "PRECEDED BY: strictly earlier) and both sides' conditions; the set of matched a-events must equal the reference "
                   "matcher's; LIMIT bounds the number of sequences; answers are identical at every layout checkpoint.")
     clauses = {"seq-bad-pair", "seq-missing", "seq-extra", "seq-limit", "seq-shape", "layout-variance", "frames", "read-error", "panic"}
-    budgets = {"quick": {"histories": 100}, "thorough": {"histories": 3000}}
+    budgets = {"quick": {"histories": 100}, "thorough": {"histories": 20000}}
 
     @staticmethod
     def nontrivial(plan, res):
@@ -1564,7 +1597,7 @@ class C19(Base):
                   "Afterwards the archive recovery API must return exactly the parseable entries of every deleted log (bytes captured "
                   "by the seam) with type, context, timestamp, payload and event id, in log order.")
     clauses = {"unlink-without-archive", "unlink-after-failed-archive", "archive-lossy", "panic"}
-    budgets = {"quick": {"histories": 24, "fault_variants": 12}, "thorough": {"histories": 300, "fault_variants": 60}}
+    budgets = {"quick": {"histories": 24, "fault_variants": 12}, "thorough": {"histories": 1200, "fault_variants": 60}}
     opts = {"archive": True}
 
     @staticmethod
@@ -1707,7 +1740,7 @@ class C06(Base):
                   "after WAL recovery, flush and compaction), and a DEFINE answered with an error leaves the original schema's "
                   "acceptance behaviour in force, also after restart.")
     clauses = {"accepted-invalid", "rejected-valid", "foreign-row", "duplicate-row", "define-error-changed-schema", "panic"}
-    budgets = {"quick": {"histories": 80}, "thorough": {"histories": 3000}}
+    budgets = {"quick": {"histories": 80}, "thorough": {"histories": 20000}}
 
     @staticmethod
     def gen(seed, tier):
